@@ -109,6 +109,12 @@ def gen_cases(tier, seed):
             # whole transfer takes (and the user's check-timer provider, which has no business in acknowledged mode, hands out 0.5 s)
             cases[-1]["cfg"].update({"ack_ivl": 100000.0, "nak_ivl": 100000.0, "check_ivl_ms": 500})
             cases[-1]["drift"] = [rng.randrange(1 << 30), 1500]
+        if rng.random() < 0.04 and not cases[-1]["cfg"]["metadata_only"]:
+            # path names of exactly 255 bytes (the longest an LV field of the Metadata PDU can carry) or one less: an existing file like any other
+            c = cases[-1]["cfg"]
+            total = rng.choice([255, 255, 254])
+            c.update({"fs": "mem", "dest": "file", "src_name": "s" * (total - 41), "dst_name": "d" * (total - 41)})
+            cases[-1]["name_len"] = total
         if rng.random() < 0.15:
             cases[-1]["busy_put"] = rng.randrange(0, 6)
         if rng.random() < 0.25:
@@ -251,6 +257,11 @@ def run_case(case):
         obs["cases_" + cfg["mode"] + ("_closure" if cfg["closure"] else "")] = 1
         obs["pdus_delivered"] = r.delivered
         obs["refused_put_requests_during_transfer"] = r.refused_puts
+        if case.get("name_len"):
+            if len(w.src_path.as_posix()) == case["name_len"] == len(w.dst_req_path.as_posix()):
+                obs["transfers_with_longest_possible_file_names"] = 1
+            else:
+                viol.append({"clause": "harness-name-length-not-as-planned", "src": len(w.src_path.as_posix()), "dst": len(w.dst_req_path.as_posix())})
         obs["transfers_with_time_passing_between_calls"] = int(r.drifted_ms > 0)
         obs["clock_advances_needed"] = r.expiries
         obs["success_reports_checked"] = mon.success_reports
@@ -273,4 +284,4 @@ def run_case(case):
     return {"viol": viol, "sig": sig, "obs": obs, "keys": keys, "sample": sample}
 
 
-REQUIRED = {"success_reports_checked": 100, "pdus_delivered": 1000, "transfers_on_reused_handlers": 100, "dest_dir_existing": 20, "refused_requests_before_a_valid_one": 50, "refused_put_requests_during_transfer": 50, "transfers_with_time_passing_between_calls": 200, "slow_transfer_after_timers_were_retuned": 30}
+REQUIRED = {"success_reports_checked": 100, "pdus_delivered": 1000, "transfers_on_reused_handlers": 100, "dest_dir_existing": 20, "refused_requests_before_a_valid_one": 50, "refused_put_requests_during_transfer": 50, "transfers_with_time_passing_between_calls": 200, "transfers_with_longest_possible_file_names": 30, "slow_transfer_after_timers_were_retuned": 30}
